@@ -56,7 +56,7 @@ class Crashes(Part):
         return cases
 
     def scenarios(self, ctx):
-        return ["serial", "presync", "contended", "parallel", "nsga2", "bulk"] + ([] if ctx.quick else ["epsmoea"])
+        return ["serial", "presync", "contended", "monitored", "parallel", "nsga2", "bulk"] + ([] if ctx.quick else ["epsmoea"])
 
     sigkill_scenarios = ["parallel", "nsga2", "serial"]
 
@@ -201,7 +201,7 @@ class CrashesImpl(Crashes):
         crashed = False
         for e in evs:
             if e["ev"] == "syncret":
-                trace.append({"ev": "syncret", "k": e["id"], "v": vkey(e["vector"]), "cf": cf_of(e["vector"], e["costs"])})
+                trace.append({"ev": "syncret", "k": e["id"], "obj": e.get("obj", 0), "v": vkey(e["vector"]), "cf": cf_of(e["vector"], e["costs"])})
             elif e["ev"] == "crash":
                 trace.append({"ev": "crash", "point": e["point"], "name": e["name"]})
                 crashed = True
